@@ -581,3 +581,62 @@ def c17(tier):
                   "not share lines.",
                   ["well-formedness on broken documents is covered by C02's sweep"],
                   "canon,min,nl,crlf,cmtall", 4, 0)
+
+
+# ---------------------------------------------------------------------------
+# C03  diagnostics are exactly what SPL prescribes
+
+ALL_RULES = ["UndefinedType", "NotAType", "RedeclarationAsType", "RedeclarationAsProcedure", "RedeclarationAsParameter",
+             "RedeclarationAsVariable", "MustBeAReferenceParameter", "MainIsMissing", "MainIsNotAProcedure", "MainMustNotHaveParameters",
+             "AssignmentHasDifferentTypes", "AssignmentRequiresIntegers", "IfConditionMustBeBoolean", "WhileConditionMustBeBoolean",
+             "UndefinedProcedure", "CallOfNoneProcedure", "ArgumentsTypeMismatch", "ArgumentMustBeAVariable", "TooFewArguments",
+             "TooManyArguments", "OperatorDifferentTypes", "ComparisonNonInteger", "ArithmeticOperatorNonInteger", "UndefinedVariable",
+             "NotAVariable", "IndexingNonArray", "IndexingWithNonInteger"]
+
+
+def c03(tier):
+    c = Check("C03", tier)
+    c.rule = ("SplStatic is the derivation machine made attribute-directed: a plan phase (global declarations, types before use) and a derive "
+              "phase whose productions are guarded by SPL's scoping and typing rules, so every completed behaviour is a well-typed program; "
+              "27 fault productions (one per build/semantic message kind) add exactly one violation and bracket the culprit. TLC enumerates "
+              "all valid and all single-fault programs up to the token bound and simulates 140-token ones; the real analysis must give NO "
+              "diagnostic for valid programs under 4 layouts, exactly the faulted rule's kind on the culprit for faulty ones, and the named "
+              "missing-token diagnostic inside the declaration for every required token deleted from a valid program; on the server every "
+              "published range lies inside the document.")
+    vlib.build_harness()
+    exe = vlib.build_server(False)
+    seen_rules = {}
+    sets = [("MC_SplStatic_valid", ["missing=1"]), ("MC_SplStatic_faults", [])] if tier == "quick" else \
+           [("MC_SplStatic_valid17", ["missing=1"]), ("MC_SplStatic_valid3", ["missing=1"]), ("MC_SplStatic_faults18", [])]
+    for cfg, extra in sets:
+        res = vlib.tlc("MC_SplStatic", cfg + ".cfg", "c03_" + cfg, timeout=6000, heap="16g")
+        vlib.require_coverage(res, ["PlanType", "PlanProc", "PlanDone", "Expand", "Shift", "Act"])
+        c.add_tlc(res, cfg)
+        r = _tag_mode(_fe("static", res["out"], "c03_" + cfg, extra), "static")
+        c.add_harness(r, cfg)
+        for k, v in r["counters"].items():
+            if k.startswith("fault:"):
+                seen_rules[k[6:]] = seen_rules.get(k[6:], 0) + v
+        rs = _srv("diag", res["out"], "c03_diag_" + cfg, exe, ["stride=%d" % (9 if tier == "quick" else 3)])
+        c.add_harness(rs, cfg + " (published diagnostics)")
+        os.remove(res["out"])
+    procs, num = (8, 40) if tier == "quick" else (16, 400)
+    for cfg in ("Sim_SplStatic_semfaults.cfg", "Sim_SplStatic_faults.cfg", "Sim_SplStatic_valid.cfg"):
+        res = vlib.tlc_sim_multi("MC_SplStatic", cfg, "c03_" + cfg.replace(".cfg", ""), procs, num, 3000, timeout=3000)
+        c.add_tlc(res, cfg)
+        r = _tag_mode(_fe("static", res["out"], "c03_" + cfg.replace(".cfg", ""), ["missing=1"]), "static")
+        c.add_harness(r, cfg)
+        for k, v in r["counters"].items():
+            if k.startswith("fault:"):
+                seen_rules[k[6:]] = seen_rules.get(k[6:], 0) + v
+        os.remove(res["out"])
+    missing = [x for x in ALL_RULES if seen_rules.get(x, 0) == 0]
+    c.notes["fault_programs_per_rule"] = seen_rules
+    if len(missing) > (3 if tier == "quick" else 0):
+        raise ToolError("vacuity: fault productions never exercised: %s" % missing)
+    c.assumptions = ["SPL rules in SplStatic are my reading of the language report as quoted in the property; the generator's guards are the "
+                     "single formulation (the independent TLA+ checker SplCheck of the design was not built)",
+                     "MainIsMissing may be reported anywhere in the document", "missing-token faults: the diagnostic must name the token and lie "
+                     "in the global declaration that lacks it; deletions that leave an equal neighbouring token are not faults"]
+    c.exhaustive = True
+    c.finish()
